@@ -589,6 +589,13 @@ func (se *SessionExecutor) handleSetAutoCommit(autocommit bool) (err error) {
 	}
 
 	// set autocommit = 0
+	// the connections of a transaction opened by BEGIN must learn it too: only then does a later
+	// SET autocommit = 1 commit that transaction on the backend, as it does for the client
+	for _, pc := range se.txConns {
+		if e := pc.SetAutoCommit(0); e != nil {
+			err = fmt.Errorf("set autocommit error, %v", e)
+		}
+	}
 	for _, pc := range se.ksConns {
 		if e := pc.SetAutoCommit(0); e != nil {
 			err = fmt.Errorf("set autocommit error, %v", e)
